@@ -405,9 +405,24 @@ def g_refine(ctx, eqsig, g):
         ctx.observe('refine: group skipped (refined T/dt leaves [0.2,2e4])')
         return
     b = refine_record(a, r)
+    how = 'own np.interp'
+    if rng.random() < 0.5:
+        # refinement by the library's own tool (anchored in fns/time_step.py): the refined record must contain the original
+        # samples at every r-th instant; a constant tail / a dropped last sample (even=True) does not touch those instants
+        even = bool(rng.random() < 0.5)
+        how = 'interp_array_to_approx_dt(even=%s)' % even
+        with attach.paused():
+            b_lib, dt_lib = eqsig.interp_array_to_approx_dt(a, dt, dt / r * (1 + 1e-9), even=even)
+        b_lib = np.asarray(b_lib, dtype=float)
+        ok_lib = abs(dt_lib - dt / r) <= 1e-12 * dt and len(b_lib) >= (len(a) - 1) * r
+        ctx.check(ok_lib, 'refine.library-refinement-factor', lambda: {'kind': 'refine-lib', 'a': a, 'r': r, 'dt': dt, 'even': even},
+                  'interp_array_to_approx_dt(dt/%d) returned step %r and %d samples for %d input samples' % (r, dt_lib, len(b_lib), len(a)))
+        if not ok_lib:
+            return
+        b = b_lib
     n = len(a)
     tag = 'refine:g%d:' % g
-    wit = lambda: {'kind': 'refine', 'a': a, 'r': r, 'dt': dt, 'periods': periods, 'xi': xi}
+    wit = lambda: {'kind': 'refine', 'a': a, 'r': r, 'dt': dt, 'periods': periods, 'xi': xi, 'how': how}
     ctx.case(core.digest(a, r, dt, periods, xi, 'refine'), nontrivial=bool(a.any()), cls='refine/' + cls,
              sample={'kind': 'refine', 'n': n, 'r': r, 'dt': dt, 'T/dt': periods / dt, 'xi': xi})
     for name, rec, d in (('x1', a, dt), ('xr', b, dt / r)):
@@ -437,8 +452,9 @@ def g_refine(ctx, eqsig, g):
         E2 = envelope(T, dt / r, len(b), xi, amax)
         au = (t1 + t2) * su + E1[0] + E2[0]
         av = (t1 + t2) * su * w + E1[1] + E2[1]
-        eu = float(np.max(np.abs(ur[::r] - u1)))
-        ev = float(np.max(np.abs(vr[::r] - v1)))
+        m = min(len(ur[::r]), len(u1))
+        eu = float(np.max(np.abs(ur[::r][:m] - u1[:m])))
+        ev = float(np.max(np.abs(vr[::r][:m] - v1[:m])))
         ctx.check(eu <= au and ev <= av, 'refine.original-instants-unchanged', wit,
                   'row %d T/dt=%.4g xi=%g r=%d: err_u=%.3g (allowed %.3g) err_v=%.3g (allowed %.3g)' % (j, T / dt, xi, r, eu, au, ev, av))
         allow_rel.append((au, av, w * w * au + 2 * xi * w * av, su))
